@@ -53,6 +53,11 @@ def run(cap):
     def psin(p):
         return (p - pa) / (pb - pa)
 
+    dct = cap.spec.get("opts", {}).get("psi_interpolation_method", "spline") == "dct"
+    # profile tolerance: 65-point cubic spline of a smooth profile; looser where the profile has a
+    # kink at the edge of the table (extrapolate_profiles) or psi_axis/psi_bdry come from a different
+    # interpolant than eq.psi (dct: critical points are always searched on a spline)
+    ptol = 5e-4 if opts.get("extrapolate_profiles") else (5e-5 if dct else 1e-5)
     Bscale = max(amax(np.abs(nc["Brxy"])), amax(np.abs(nc["Bzxy"])))
     signs = []
     for suf in ("", "_xlow", "_ylow"):
@@ -66,7 +71,7 @@ def run(cap):
         # toroidal field from the analytic profile of the family
         if fam.fs != 0:
             expF = ff * fam.F_of_psinorm(psin(psi(R, Z)))
-            out.append(rec("Btxy=fpol(psi)/R" + suf, cls, R.size, amax(np.abs(nc["Btxy" + suf] - expF / R) / np.abs(expF / R)), 1e-5, where=argmax_where(np.abs(nc["Btxy" + suf] - expF / R))))
+            out.append(rec("Btxy=fpol(psi)/R" + suf, cls, R.size, amax(np.abs(nc["Btxy" + suf] - expF / R) / np.abs(expF / R)), ptol, where=argmax_where(np.abs(nc["Btxy" + suf] - expF / R))))
         else:
             out.append(rec("Btxy=0_without_fpol" + suf, cls, R.size, amax(np.abs(nc["Btxy" + suf])), 0.0))
     signs = np.concatenate(signs)
@@ -87,6 +92,36 @@ def run(cap):
     out.append(rec("sign(Bpxy)=sign(Bp.d(r)/dy)_every_cell", cls, ncell, ndis, 0))
 
     # ---- pressure --------------------------------------------------------------------
+    extrap = bool(opts.get("extrapolate_profiles"))
+    P_plain = fam.P_of_psinorm
+    if extrap and fam.prof:
+        # documented: exponential decay outside the tabulated range, built from the value
+        # and the gradient of the last two tabulated points
+        nf = fam.nR
+        hN = fam.pn_max / (nf - 1)
+        p_edge = float(P_plain(fam.pn_max))
+        dpdn = (p_edge - float(P_plain(fam.pn_max - hN))) / hN  # d p / d psi_N
+
+        def P_ext(pn):
+            pn = np.asarray(pn, float)
+            inner = P_plain(np.minimum(pn, fam.pn_max))
+            return np.where(pn > fam.pn_max, p_edge * np.exp((pn - fam.pn_max) * dpdn / p_edge), inner)
+
+        fam_P = P_ext
+        # continuity at the edge and decay along the extension, straight from eq.pressure
+        psi_edge = pa + fam.pn_max * (pb - pa)
+        d_ = 1e-7 * (pb - pa)
+        jump = abs(float(eq.pressure(psi_edge + d_)) - float(eq.pressure(psi_edge - d_))) / p_edge
+        out.append(rec("extrapolated pressure continuous at the plasma edge", cls, 1, jump, 1e-5, sig="jump of %.3g x p_edge at psi1D[-1]" % jump if jump > 1e-5 else None))
+        psi_out = opts.get("psi_sol")
+        if psi_out is not None:
+            pe = np.linspace(psi_edge, float(psi_out), 200)
+            pv = np.array([float(eq.pressure(x)) for x in pe])
+            mono = np.diff(pv) * np.sign(dpdn) * np.sign(1.0)  # decays when dp/dpsi_N < 0
+            out.append(rec("extrapolated pressure decays monotonically beyond the edge", cls, len(pe), int((mono < -1e-9 * p_edge).sum()) if dpdn < 0 else 0, 0, sig="pressure range on the extension [%.4g, %.4g], p_edge %.4g" % (pv.min(), pv.max(), p_edge)))
+            out.append(rec("extrapolated pressure = p_edge*exp((psi-psi_edge)*p'/p_edge)", cls, len(pe), amax(np.abs(pv - P_ext(psin(pe)))) / p_edge, 1e-4))
+    else:
+        fam_P = P_plain
     if fam.prof and "pressure" in nc:
         # which separatrix a leg reflects about: the X-point it is attached to (oracle:
         # analytic critical points, lower legs <-> lower X-point)
@@ -103,7 +138,7 @@ def run(cap):
                 p_code = getattr(region.pressure, loc)
                 ps = getattr(region.psixy, loc)
                 if "core" in name:
-                    expP = fam.P_of_psinorm(psin(ps))
+                    expP = fam_P(psin(ps))
                     k = "core"
                 else:
                     lower = "lower" in name
@@ -111,7 +146,7 @@ def run(cap):
                     if not cand:
                         continue
                     leg_psi = pf * cand[0][2]
-                    expP = fam.P_of_psinorm(psin(leg_psi + sign_out * np.abs(ps - leg_psi)))
+                    expP = fam_P(psin(leg_psi + sign_out * np.abs(ps - leg_psi)))
                     k = "leg"
                 e = np.abs(p_code - expP) / Pscale
                 nn[k] += e.size
@@ -120,7 +155,7 @@ def run(cap):
                     where[k] = {"region": region.name, "loc": loc, "index": argmax_where(e)}
         for k in ("core", "leg"):
             if nn[k]:
-                out.append(rec("pressure=profile(psi)." + k, cls, nn[k], worst[k], 1e-5, where=where.get(k), note="legs: reflected about the leg's own separatrix; error relative to p(axis)"))
+                out.append(rec("pressure=profile(psi)." + k, cls, nn[k], worst[k], ptol, where=where.get(k), note="legs: reflected about the leg's own separatrix; error relative to p(axis)"))
         # file = memory assembly
         e = 0.0
         for rid, region in mesh.regions.items():
@@ -133,11 +168,12 @@ def run(cap):
     Ro, Zo = newton_crit(psi, oa[0], oa[1], L)
     Rx, Zx = newton_crit(psi, xa[0], xa[1], L)
     prange = abs(pb - pa)
-    out.append(rec("psi_axis=psi(O-point)", cls, 1, abs(float(nc["psi_axis"]) - float(psi(Ro, Zo))) / prange, 1e-6))
-    out.append(rec("psi_bdry=psi(primary X-point)", cls, 1, abs(float(nc["psi_bdry"]) - float(psi(Rx, Zx))) / prange, 1e-6))
+    ctol = 5e-4 if dct else 1e-6
+    out.append(rec("psi_axis=psi(O-point)", cls, 1, abs(float(nc["psi_axis"]) - float(psi(Ro, Zo))) / prange, ctol))
+    out.append(rec("psi_bdry=psi(primary X-point)", cls, 1, abs(float(nc["psi_bdry"]) - float(psi(Rx, Zx))) / prange, ctol))
     if fam.fs != 0:
         expBt = ff * float(fam.F_of_psinorm(0.0)) / Ro
-        out.append(rec("Bt_axis=fpol(psi_axis)/R_axis", cls, 1, abs(float(nc["Bt_axis"]) - expBt) / abs(expBt), 1e-6))
+        out.append(rec("Bt_axis=fpol(psi_axis)/R_axis", cls, 1, abs(float(nc["Bt_axis"]) - expBt) / abs(expBt), 1e-4, note="bounded by the accuracy of the O-point position (xpoint_refine_atol on Bp^2)"))
     # the interpolant's critical points are where the analytic ones are
     out.append(rec("O/X-point_of_interpolant_near_analytic", cls, 2, max(np.hypot(Ro - oa[0], Zo - oa[1]), np.hypot(Rx - xa[0], Zx - xa[1])) / L, 2e-3))
     return out
